@@ -163,6 +163,27 @@ LayoutOK(L) ==
   /\ w > 1 => (w \div 2) * (w \div 2) < WorstCaseSize(L.blobs, L.compact)
 
 (***************************************************************************)
+(* Where padding appears INSIDE a row of namespace data, in terms of the   *)
+(* start indices alone (no cells needed, so it is cheap for wide squares): *)
+(* blob b (b >= 2) is preceded by namespace padding, the blob before it is *)
+(* of the same namespace and has a share in the row where b starts (so the *)
+(* parser has already consumed shares of that row when it skips the        *)
+(* padding), b ends in that row and the next blob of the namespace starts  *)
+(* in the same row:  [..earlier blob(s)..][padding][b][b+1 ...             *)
+(* With the production threshold this needs len_b >= 65, i.e. a square of  *)
+(* width >= 128.  MCBlobLayoutWide enumerates such blocks for the driver.  *)
+(***************************************************************************)
+InRowPaddingThenTwoStarts(sb, st, w) ==
+  \E b \in 2..Len(sb) - 1 :
+    LET prevEnd == st[b - 1] + sb[b - 1].len          \* exclusive
+        endB    == st[b] + sb[b].len
+    IN /\ st[b] > prevEnd                                         \* padding in front of b
+       /\ sb[b - 1].ns = sb[b].ns /\ sb[b].ns = sb[b + 1].ns
+       /\ (prevEnd - 1) \div w = st[b] \div w                    \* earlier shares of the namespace in b's row
+       /\ (endB - 1) \div w = st[b] \div w                       \* b completes in that row
+       /\ st[b + 1] \div w = st[b] \div w                        \* and another blob starts there
+
+(***************************************************************************)
 (* What a node serves for a namespace q (share/eds/nd.go NamespaceData,    *)
 (* share.RowsWithNamespace, RowNamespaceData): one entry for every ODS row *)
 (* whose namespace range [min,max] contains q, in row order, with the      *)
